@@ -725,19 +725,14 @@ fn c19_judge(case: &Case, run: &Run, an: &Analysis, stats: &mut Stats) -> CheckR
             }
             if !model_panics { return Err(Failure::new(format!("[c19-task-panic-not-in-model] session {} build {}: a task failed ({}) although a from-scratch build of the current state does not fail", si, bi, msg))); }
           }
-          kind => {
+          _kind => {
             let what = format!("[c19-spurious-abort] session {} build {} ({:?}) aborted with a diagnosed violation that does not exist in the current state: {}", si, bi, b.kind, msg);
             // Known finding C19-F1: after an aborted execution a task has lost the requires it had recorded before; a
             // reader that reached a generator only through that task then makes the generator's next write look like a
             // hidden dependency.
-            if seen_abort && kind == crate::analyze::PanicKind::HiddenWrite {
-              let mut sh = crate::model::Shadow::default();
-              for l in &run.log[..b.log.end] { sh.feed(l); }
-              let reader = msg.split("from reading task 'T").nth(1).and_then(|x| x.split('\'').next()).and_then(|x| x.parse::<u8>().ok());
-              if let Some(s) = reader {
-                let cut = sh.last.iter().any(|(x, e)| !e.complete && (*x == s || sh.reaches(s, *x)));
-                if cut { stats.class("c19_f1_hidden_dependency_after_abort_cut_a_path"); return Err(Failure::with_sig(what, "C19-F1/hidden-write-after-aborted-intermediate")); }
-              }
+            if seen_abort && c19_f1_signature(run, b, msg) {
+              stats.class("c19_f1_hidden_dependency_after_abort_cut_a_path");
+              return Err(Failure::with_sig(what, "C19-F1/hidden-write-after-aborted-intermediate"));
             }
             return Err(Failure::new(what));
           }
@@ -751,6 +746,20 @@ fn c19_judge(case: &Case, run: &Run, an: &Analysis, stats: &mut Stats) -> CheckR
     }
   }
   Ok(())
+}
+
+/// Signature of finding C19-F1 for a write-side hidden-dependency abort of build `b` (only meaningful after an earlier
+/// abort): the reading task named by the error is, or reaches over its recorded requires, a task whose last execution was
+/// aborted (and which therefore lost the requires it had recorded before).
+pub fn c19_f1_signature(run: &Run, b: &engine::BuildRec, msg: &str) -> bool {
+  if crate::analyze::panic_kind(msg) != crate::analyze::PanicKind::HiddenWrite { return false; }
+  let mut sh = crate::model::Shadow::default();
+  for l in &run.log[..b.log.end] { sh.feed(l); }
+  let reader = msg.split("from reading task 'T").nth(1).and_then(|x| x.split('\'').next()).and_then(|x| x.parse::<u8>().ok());
+  match reader {
+    Some(s) => sh.last.iter().any(|(x, e)| !e.complete && (*x == s || sh.reaches(s, *x))),
+    None => false,
+  }
 }
 
 /// Crash-point enumeration: for sampled cases, abort the designated build at every one of its operation points.
@@ -793,6 +802,12 @@ fn c19_extra(spec: &Spec, tier: Tier, seed: u64, known: &Known, report: &mut Rep
   report.stats.merge(stats);
   report.extra.insert("crash_points_enumerated".into(), json!(points));
   report.extra.insert("cases_with_all_crash_points".into(), json!(cases_enumerated));
+  // Aborts caused by diagnosed violations that exist only in some states (cause removed or not afterwards).
+  let (shards, cases) = match tier { Tier::Quick => (8, 8000), Tier::Thorough => (16, 120000) };
+  let dcfg = super::diag::diag_cfg(tier);
+  let scfg = SearchCfg { prop: "C19", label: "diag", seed, shards, cases_per_shard: cases, max_shrink_iters: 3000 };
+  let (stats, found) = driver::search(&scfg, known, || super::diag::strategy(dcfg.clone()), |c, s| super::diag::check(c, super::diag::Mode::C19, s), |c| pretty_case(c));
+  report.absorb("diag", stats, found);
 }
 
 pub const C19: Spec = Spec {
@@ -961,6 +976,8 @@ pub fn replay(prop: &str, _label: &str, path: &Path) -> Result<CheckResult, Stri
   let spec = spec_of(prop).ok_or_else(|| format!("no spec for {}", prop))?;
   let (_, _, case): (_, _, Case) = driver::load_replay(path)?;
   if prop == "C20" && _label == "roles" { return Ok(super::roles::replay_roles(&case)); }
+  if prop == "C20" && _label == "guarded" { return Ok(driver::guarded(|| super::diag::check(&case, super::diag::Mode::C20, &mut Stats::dummy()))); }
+  if prop == "C19" && _label == "diag" { return Ok(driver::guarded(|| super::diag::check(&case, super::diag::Mode::C19, &mut Stats::dummy()))); }
   Ok(driver::guarded(|| check(spec, &case, &mut Stats::dummy())))
 }
 
